@@ -137,6 +137,10 @@ func (r Rule) Config(proxyHost string) rconfig.Rule {
 
 	if proxyHost != "" {
 		rc.Backend = &rconfig.Backend{Host: proxyHost}
+		if len(r.ID)%2 == 1 {
+			// a rewrite that has nothing to do with the path: the path goes out as without it
+			rc.Backend.URLRewriter = &rconfig.URLRewriter{QueryParamsToRemove: []string{"verif-unused"}}
+		}
 	}
 
 	return rc
@@ -202,9 +206,10 @@ const (
 	H2 = "h2.example.com"
 	H3 = "other.org"
 	H4 = "a.h1.example.com" // one label more than the glob patterns have
+	H5 = "API.Example.com"  // spelled with capitals, in the rule and by the client alike
 )
 
-var Hosts = []string{H1, H2, H3, H4} //nolint:gochecknoglobals
+var Hosts = []string{H1, H2, H3, H4, H5} //nolint:gochecknoglobals
 
 // HostMatchers: patterns with hand-written meaning (self-tested against the libraries at start-up).
 func HostMatchers() []Matcher {
@@ -216,6 +221,8 @@ func HostMatchers() []Matcher {
 		{Type: "regex", Pat: `^h[12]\.example\.com$`, Pred: in(H1, H2)},
 		{Type: "regex", Pat: `^other\.org$`, Pred: in(H3)},
 		{Type: "glob", Pat: "**", Pred: func(string) bool { return true }},
+		{Type: "exact", Pat: H5, Pred: in(H5)},
+		{Type: "regex", Pat: `^API\.`, Pred: in(H5)},
 	}
 }
 
